@@ -78,21 +78,10 @@ func c10Find(file, column string) *c10Col {
 	return nil
 }
 
-// c10Mask hides what the statement leaves open: with inheritance on, stops whose parent is not a
-// station ("takes its parent station's value" says nothing about them).
-func c10Mask(n sgen.NStatic, inherit bool) sgen.NStatic {
-	if !inherit {
-		return n
-	}
-	stops := append([]sgen.NStop(nil), n.Stops...)
-	for i := range stops {
-		if p := stops[i].Parent; p >= 0 && p < len(n.Stops) && n.Stops[p].Type != 1 {
-			stops[i].Wheelchair = -9
-		}
-	}
-	n.Stops = stops
-	return n
-}
+// c10Mask is the identity: with inheritance on, a stop whose parent is NOT a station must stay as it is - the option is
+// documented as inheriting "from parent station ... for a child stop/platform, entrance, or exit" and the statement says
+// enabling it "changes nothing else" (an earlier version of this check left such stops open and thereby missed a seeded change).
+func c10Mask(n sgen.NStatic, inherit bool) sgen.NStatic { return n }
 
 func checkC10(c CaseC10) error {
 	col := c10Find(c.File, c.Column)
